@@ -30,6 +30,7 @@ import (
 	"encoding/json"
 	"fmt"
 	"os"
+	"runtime"
 	"strconv"
 	"strings"
 	"sync"
@@ -79,6 +80,18 @@ func (w *c01World) wait() string {
 			return w.take() + " Q"
 		}
 		time.Sleep(200 * time.Microsecond)
+	}
+	if os.Getenv("C01_DEBUG") != "" {
+		for _, wk := range w.liveWorkers() {
+			id, missing, in := wk.w.Operator.VerifCheckpointState()
+			fmt.Fprintf(os.Stderr, "NQ: worker %d opIdx %d srIdx %d ckpt=%d missing=%v inprogress=%v\n", wk.num, wk.opIdx, wk.srIdx, id, missing, in)
+		}
+		w.mu.Lock()
+		fmt.Fprintf(os.Stderr, "NQ: cur=%v fed=%d read=%d deliv=%d acks=%d writes=%d\n", w.cur, len(w.splits[0]), w.readDep, w.delivDep, len(w.acks), len(w.writes))
+		w.mu.Unlock()
+		buf := make([]byte, 1<<20)
+		n := runtime.Stack(buf, true)
+		os.WriteFile("/tmp/c01/stacks.txt", buf[:n], 0o644)
 	}
 	return w.take() + " NQ"
 }
